@@ -212,7 +212,7 @@ Proof.
   - exact P.
 Qed.
 
-(* ------------------------------------------------------------------ (a) order, benign histories: the whole sequence
+(* ------------------------------------------------------------------ (a) order, every history: the whole sequence
    Setup starts waiting  <  Terminate old  <  MarkClosed old  <  SetupEnd *)
 Definition is_wait (p : pending) (x : stepT) : Prop :=
   exists s s', x = (s, OSetup (p_conn p) (p_id p) (p_clean p), RSetupWait (p_old p), s').
@@ -233,7 +233,7 @@ Lemma pending_step st o :
      mem_n c1 (st_term st) = false /\ mem_n c1 (st_closed st) = false /\
      st_term st' = st_term st /\ st_closed st' = st_closed st).
 Proof.
-  intros (C & _ & _). cbv zeta.
+  intros (C & _). cbv zeta.
   destruct o as [c id clean|t|c|c subs b|c fs|c m got|c t|c|].
   3-9: (left; destruct (st_pending st) as [p|] eqn:P;
          [apply (pending_persists st p _ P); intros t0; discriminate|]).
@@ -305,23 +305,21 @@ Proof.
 Qed.
 
 Lemma phase_all cap ops :
-  forallb benign ops = true ->
   Inv (run_state (init cap) ops) /\ Phase (trace (init cap) ops) (run_state (init cap) ops).
 Proof.
-  apply (history_invariant (fun past st => Inv st /\ Phase past st) benign).
+  apply (history_invariant (fun past st => Inv st /\ Phase past st) (fun _ => true)).
   - split; [apply inv_init|]. intros p H; discriminate.
-  - intros past st o [I Ph] B. split; [apply inv_step; assumption|apply phase_step; assumption].
+  - intros past st o [I Ph] _. split; [apply inv_step; assumption|apply phase_step; assumption].
+  - clear. induction ops; [reflexivity|exact IHops].
 Qed.
 
-Theorem order_benign cap ops l1 st b st' l2 :
-  forallb benign ops = true ->
+Theorem order_full cap ops l1 st b st' l2 :
   trace (init cap) ops = l1 ++ (st, OSetupEnd false, RSetup b, st') :: l2 ->
   exists p a w mid, st_pending st = Some p /\ l1 = a ++ w :: mid /\ is_wait p w /\ closed_after_term (p_old p) mid.
 Proof.
-  intros B H. destruct (trace_split _ _ _ _ _ H) as (ops1 & o & ops2 & E1 & E2 & E3 & E4).
+  intros H. destruct (trace_split _ _ _ _ _ H) as (ops1 & o & ops2 & E1 & E2 & E3 & E4).
   injection E3 as Es Eo Er Es'. subst o.
-  assert (B1 : forallb benign ops1 = true) by (rewrite E1 in B; exact (forallb_app_l _ _ _ B)).
-  destruct (phase_all cap ops1 B1) as [_ Ph]. rewrite <- E2, <- Es in Ph.
+  destruct (phase_all cap ops1) as [_ Ph]. rewrite <- E2, <- Es in Ph.
   cbn [step] in Er. rewrite <- Es in Er. unfold setup_end in Er.
   destruct (st_pending st) as [p|] eqn:P; [|discriminate].
   destruct (mem_n (p_old p) (st_closed st)) eqn:C; [|discriminate].
@@ -453,24 +451,30 @@ Lemma many_same past st o r :
 Proof. intros M H. apply (many_keep past st _ st M H); auto. Qed.
 
 Lemma many_step past st o :
-  Inv st -> benign o = true -> Many past st ->
+  Inv st -> Many past st ->
   Many (past ++ [(st, o, fst (step st o), snd (step st o))]) (snd (step st o)).
 Proof.
-  intros I B M. pose proof I as (C & Fi & Pe).
+  intros I M. pose proof I as (C & Pe).
   destruct o as [c id clean|t|c|c subs b|c fs|c m got|c t|c|].
   - (* Setup *)
     cbn [step]. unfold setup.
     destruct (st_pending st) eqn:P; [apply many_same; [exact M|reflexivity]|].
     destruct (alookup N.eqb c (st_cid st)) eqn:H; [apply many_same; [exact M|reflexivity]|].
-    cbn [st_closing]. rewrite (i_closing _ C).
+    cbn [st_closing].
     destruct (fresh_conn st c C H) as [NS NT].
     assert (CidOther : forall x, x <> c -> cid_of (with_cid st c id) x = cid_of st x).
     { intros x Hx. rewrite cid_of_with, (n_neq_eqb _ _ Hx). reflexivity. }
     assert (Live : forall x, sess_of st x <> None \/ mem_n x (st_term st) = true -> x <> c).
     { intros x [Hx|Hx] ->; congruence. }
+    destruct (st_closing st) eqn:CL.
+    { (* refused while the backend is closing: only the client id is recorded *)
+      cbn [fst snd]. apply (many_keep past st _ _ M); [reflexivity| | |].
+      - intros x Hx. exact Hx.
+      - intros x Hx. unfold cid_of. cbn [st_cid]. rewrite (alookup_aset N.eqb N.eqb_eq), (n_neq_eqb _ _ (Live x Hx)). reflexivity.
+      - intros x Hx. exact Hx. }
     assert (Est1 : St (st_cap st) (st_stored st) (st_temps st) (st_active st) (st_retained st) false
                (st_sess st) (aset N.eqb c id (st_cid st)) (st_dying st) (st_closed st) (st_term st) None = with_cid st c id).
-    { unfold with_cid. rewrite (i_closing _ C). reflexivity. }
+    { unfold with_cid. rewrite CL. reflexivity. }
     rewrite Est1.
     destruct (is_nil id) eqn:Hid.
     + (* no client id: a fresh temporary session *)
@@ -519,7 +523,11 @@ Proof.
            rewrite <- (CidOther x Hne).
            apply (existing_free _ id C1 Hid (or_introl E) x k). exact Hx.
   - (* SetupEnd *)
-    destruct t; [discriminate|]. cbn [step]. unfold setup_end.
+    destruct t.
+    { (* kill timeout: no completion, nothing but the wait changes *)
+      cbn [step]. unfold setup_end. destruct (st_pending st) as [p|] eqn:P; [|apply many_same; [exact M|reflexivity]].
+      cbn [fst snd]. unfold set_pending. apply (many_keep past st _ _ M); [reflexivity| | |]; intros x Hx; try exact Hx; reflexivity. }
+    cbn [step]. unfold setup_end.
     destruct (st_pending st) as [p|] eqn:P; [|apply many_same; [exact M|reflexivity]].
     destruct (mem_n (p_old p) (st_closed st)) eqn:Cl; [|apply many_same; [exact M|reflexivity]].
     destruct (Pe p P) as (P1 & P2 & P3 & P4 & P5).
@@ -558,19 +566,21 @@ Proof.
     + intros x _. reflexivity.
     + intros x Hx. unfold sess_of; cbn [st_sess st_term]. rewrite (alookup_aremove N.eqb N.eqb_eq), mem_add_n.
       destruct (x =? c); [right; reflexivity|]. cbn [orb]. exact Hx.
-  - discriminate.
+  - (* backend Close *)
+    cbn [step]. unfold close_backend. cbn [fst snd].
+    apply (many_keep past st _ _ M); [reflexivity| | |]; intros x Hx; try exact Hx; reflexivity.
 Qed.
 
 Lemma many_all cap ops :
-  forallb benign ops = true ->
   Inv (run_state (init cap) ops) /\ Many (trace (init cap) ops) (run_state (init cap) ops).
 Proof.
-  apply (history_invariant (fun past st => Inv st /\ Many past st) benign).
+  apply (history_invariant (fun past st => Inv st /\ Many past st) (fun _ => true)).
   - split; [apply inv_init|]. constructor.
     + intros id c _ H. exfalso; apply H; reflexivity.
     + intros id c [].
     + intros id. constructor.
-  - intros past st o [I M] B. split; [apply inv_step; assumption|apply many_step; assumption].
+  - intros past st o [I M] _. split; [apply inv_step; assumption|apply many_step; assumption].
+  - clear. induction ops; [reflexivity|exact IHops].
 Qed.
 
 (* a connection is active for client id `id`: some session names it as its active connection *)
@@ -581,7 +591,7 @@ Definition active_for (st : state) (id : bytes) (c : conn) : Prop :=
    the history at most one of them is active; it is the connection whose Setup for that id completed last; every
    connection whose Setup for that id completed earlier has terminated *)
 Theorem many_contenders cap ops id :
-  forallb benign ops = true -> id <> [] ->
+  id <> [] ->
   let st := run_state (init cap) ops in
   let tr := trace (init cap) ops in
   (forall c, active_for st id c ->
@@ -591,8 +601,8 @@ Theorem many_contenders cap ops id :
   (forall c', In c' (completions id tr) -> active_for st id c' \/ terminated_in c' tr) /\
   NoDup (completions id tr).
 Proof.
-  intros B Hid st tr. destruct (many_all cap ops B) as [I M]. fold st tr in I, M.
-  pose proof I as (C & _ & _). pose proof (lifecycle_all cap ops) as [L1 _]. fold st tr in L1.
+  intros Hid st tr. destruct (many_all cap ops) as [I M]. fold st tr in I, M.
+  pose proof I as (C & _). pose proof (lifecycle_all cap ops) as [L1 _]. fold st tr in L1.
   assert (Sess : forall c, active_for st id c -> sess_of st c <> None /\ cid_of st c = id).
   { intros c (k & s & G & A & Hc). split; [rewrite (i_s2 _ C k s c G A); discriminate|exact Hc]. }
   split; [|split].
@@ -666,6 +676,7 @@ Proof.
     split; [exact NP|].
     destruct (alookup N.eqb c (st_sess st)) as [[x|i]|]; try (exists s; auto; fail).
     destruct (alookup bytes_eqb i (st_stored st)) as [s0|] eqn:L0; [|exists s; auto].
+    destruct (option_eqb N.eqb (s_act s0) (Some c)); [|exists s; auto].
     rewrite (alookup_aset bytes_eqb bytes_eqb_eq). destruct (bytes_eqb id i) eqn:E; [|exists s; auto].
     apply bytes_eqb_eq in E; subst i. rewrite L in L0; injection L0 as <-. eexists; split; [reflexivity|auto].
 Qed.
@@ -758,6 +769,7 @@ Proof.
     + rewrite (alookup_aremove N.eqb N.eqb_eq) in G'. destruct (x =? c); congruence.
     + destruct (alookup N.eqb c (st_sess st)) as [[y|j]|]; try congruence.
       destruct (alookup bytes_eqb j (st_stored st)) as [s0|] eqn:L; [|congruence].
+      destruct (option_eqb N.eqb (s_act s0) (Some c)); [|congruence].
       rewrite (alookup_aset bytes_eqb bytes_eqb_eq) in G'. destruct (bytes_eqb i j) eqn:E; [|congruence].
       apply bytes_eqb_eq in E; subst j. rewrite L in G; injection G as <-. injection G' as <-. reflexivity.
   - unfold close_backend. cbn [snd]. intros G'. destruct k; cbn [get_session st_temps st_stored] in *; congruence.
